@@ -182,10 +182,25 @@ def pilot(source, rng, nops):
                 ok, S2, _v, _g, _e = model.step(S, descs[j], None)
                 if ok and S2 != S and (S2[0] != S[0] or S2[1] != S[1] or
                                        S2[3] != S[3]):
+                    if source.get("prefer_refused") and \
+                            not source.get("_refused") and \
+                            descs[j]["kind"] == "exploit" and \
+                            descs[j]["target"][0] == 1 and not \
+                            sp.hosts[(2, 0)]["firewall"].get(
+                                descs[j]["target"]):
+                        continue    # first the footholds that are refused
                     i = j
                     break
             if i is None or rng.random() < 0.25:
                 i = rng.randrange(len(descs))
+            if source.get("prefer_refused") and rng.random() < 0.5:
+                # an attack that the target's own firewall refuses
+                from ..refmodel import G_FWBLOCK
+                blocked = [j for j in range(len(descs))
+                           if model.step(S, descs[j], None)[3] == G_FWBLOCK]
+                if blocked:
+                    i = rng.choice(blocked)
+                    source["_refused"] = source.get("_refused", 0) + 1
             seed = rngtap.seed_for(descs[i]["prob"], rng.random() < 0.85)[0]
             from ..paramspace import vector_for
             op = ("step", i, seed, vector_for(sp, descs[i]))
@@ -226,7 +241,8 @@ def make_pair(rng, tier, force=None):
                 "spec": sp.canonical(), "modes": modes(), "_spec": sp}
 
     k = rng.choice(["same", "same", "same_layout", "twin", "twin",
-                    "different", "different", "different_modes"])
+                    "different", "different", "different_modes",
+                    "refused_pivot"])
     if force == "tiny_small":
         # the documented witness of the recorded finding KF-C19-layout
         return shipped("tiny"), shipped("small"), "different"
@@ -283,6 +299,15 @@ def make_pair(rng, tier, force=None):
         a, b = syn(sp), syn(sp2)
         a["modes"] = b["modes"] = m
         return a, b, "twin_one_field:" + what
+    if k == "refused_pivot":
+        # two environments attacking one network whose inner hosts refuse
+        # some footholds; mostly built from one and the same Scenario object
+        a = syn(synth.refused_pivot(rng))
+        a["prefer_refused"] = True
+        b = dict(a, modes=a["modes"] if rng.random() < 0.5 else modes())
+        if rng.random() < 0.8:
+            a["share"] = b["share"] = "S"
+        return a, b, "refused_pivot"
     if k == "same":
         if rng.random() < 0.5:
             a = shipped(rng.choice(corpus.SHIPPED[:6]))
@@ -346,7 +371,7 @@ def layouts_equal(a, b):
 
 
 def public(src):
-    return {k: v for k, v in src.items() if k != "_spec"}
+    return {k: v for k, v in src.items() if not k.startswith("_")}
 
 
 def interleave(acc, A, B, opsA, opsB, soloA, soloB, sched, shim, kind, pair_id,
@@ -413,8 +438,9 @@ def schedules(na, nb, rng, limit):
 def pair_case(acc, rng, tier, pair_id):
     z = SIZES[tier]
     A, B, kind = make_pair(rng, tier, "tiny_small" if pair_id == 0 else None)
-    short = rng.random() < 0.5 and not kind.startswith("twin")
-    lo = z["ops"] - 4 if kind.startswith("twin") else 5
+    long_ = kind.startswith("twin") or A.get("prefer_refused")
+    short = rng.random() < 0.5 and not long_
+    lo = z["ops"] - 4 if long_ else 5
     na = rng.randint(3, 4) if short else rng.randint(lo, z["ops"])
     nb = rng.randint(3, 4) if short else rng.randint(lo, z["ops"])
     opsA, soloA, chA, _ = pilot(A, rng, na)
@@ -424,6 +450,8 @@ def pair_case(acc, rng, tier, pair_id):
         return
     same_layout = layouts_equal(A, B)
     acc.count("pairs:" + kind.split(":")[0])
+    acc.count("attacks_refused_by_target_firewall_in_pilots",
+              A.get("_refused", 0) + B.get("_refused", 0))
     acc.count("pairs_same_layout" if same_layout else
               "pairs_different_layout")
     # The in-process "solo" runs are not alone in the process (the other
